@@ -35,7 +35,7 @@ func Quiet() {
 // MemDB opens a fresh in-memory Badger.
 func MemDB() *badger.DB {
 	Quiet()
-	opt := badger.DefaultOptions("").WithInMemory(true).WithLogger(nil)
+	opt := badger.DefaultOptions("").WithInMemory(true).WithLogger(nil).WithMaxTableSize(1 << 20).WithNumMemtables(2)
 	db, err := badger.Open(opt)
 	if err != nil {
 		panic(err)
@@ -61,6 +61,13 @@ func ID(lo, hi uint64) uuid.UUID {
 		u[8+i] = byte(hi >> (8 * uint(i)))
 	}
 	return u
+}
+
+// PartitionID is the id of the p-th partition of the test dataset: deliberately NOT in ascending
+// order (production ids are random), so that anything that re-orders partitions shows.
+func PartitionID(p int) uuid.UUID {
+	perm := []uint64{0xa7, 0xa2, 0xa9, 0xa1, 0xa5, 0xa3, 0xa8, 0xa4}
+	return ID(perm[p%len(perm)]+uint64(p/len(perm))<<8, 0x77)
 }
 
 func Addr(node uint64) string { return fmt.Sprintf("passthrough:///n%d", node) }
@@ -91,7 +98,7 @@ func NewDatasetCluster(nNodes int, dim uint32, space pb.Space, placement [][]uin
 	dsid := ID(0xd5, 0xd5)
 	meta := &pb.Dataset{Id: dsid.Bytes(), Dimension: dim, Space: space, PartitionCount: uint32(len(placement)), ReplicationFactor: repl}
 	for p, nodes := range placement {
-		meta.Partitions = append(meta.Partitions, &pb.Partition{Id: ID(uint64(0xa0+p), 0x77).Bytes(), NodeIds: append([]uint64{}, nodes...)})
+		meta.Partitions = append(meta.Partitions, &pb.Partition{Id: PartitionID(p).Bytes(), NodeIds: append([]uint64{}, nodes...)})
 	}
 	c := &DCluster{Meta: meta, DSID: dsid}
 	for i := 1; i <= nNodes; i++ {
